@@ -436,10 +436,18 @@ def replay(pid, path):
     model_obs = out2.splitlines()[0] if out2 else "MODEL-ERROR"
     print("case:     ", line)
     print("impl now: ", impl_obs)
-    print("model/spec:", model_obs)
     strip = lambda x: x.split(" spec=")[0]
-    if strip(impl_obs) != strip(model_obs) or "spec=bad" in impl_obs:
-        print("STILL FAILS")
+    if model_obs == "(judge)":
+        # an admissibility judge decides (several outcomes are allowed): run the comparison itself
+        rc, out3 = sh([os.path.join(BUILD, "modelrun")], inp=line + "\t" + impl_obs + "\n", timeout=120)
+        mm = [l for l in out3.splitlines() if l.startswith("MISMATCH")]
+        print("model/spec:", mm[0].split("\t", 2)[-1] if mm else "admits this observation")
+        differs = bool(mm)
+    else:
+        print("model/spec:", model_obs)
+        differs = strip(impl_obs) != strip(model_obs)
+    if differs or "spec=bad" in impl_obs:
+        print("STILL FAILS" + (" (the property's relation is violated by the implementation's own observation)" if not differs else ""))
         return 1
     print("agrees now")
     return 0
